@@ -10,6 +10,15 @@ deep: value correctness belongs to the owning properties.  One JSON description 
 
 Frames are ``vf.gen.frames.rand_frame(cols="wide")`` (a int64, b str, c float NaN, d float, e bool, t datetime,
 k categorical, n Int64, m boolean).  ``other`` is a second frame with the same columns.
+
+Consumer classes (second half of this file): ``indexcol`` (index <-> column moves; the frame gets the index named in
+``desc["ix"]`` by ``prepare_frame``), ``pushdown`` (one frame operation of _expr.py) and ``select-after`` (a program of
+the classes above) each END with a consumer ("tail": column selection(s), sibling arithmetic, filter, assign, .index,
+reduction, reset_index()[col]).  ``apply(desc, frame, is_dask, other, upto="inner" | k)`` evaluates the program
+without its consumer (indexcol: only the first k moves).  A tail is static (indexcol: the generator tracks kind,
+columns, dtype classes, index name and whether reset_index made the index partition-local) or dynamic
+(``{"op", "dyn": seed}``: columns and predicates are drawn from ``R.columns`` / ``R.dtypes`` when it is applied, see
+``resolve_tail``).  ``consumer_head`` / ``indexcol_features`` / ``TAIL_FAMILY`` give the label heads.
 """
 from __future__ import annotations
 
@@ -614,13 +623,14 @@ def make_tail(r, op, cols, ser=None):
     if op in ("getcols", "getcols-index", "count", "reset-getcols"):
         k = r.randint(1, max(1, min(3, len(cols) - 1)))
         sel = [c1[0]] + [c[0] for c in r.sample(rest, min(len(rest), k - 1)) if c[0] != c1[0]]
-        order = _pick(r, ["asis", "asis", "asis", "frame", "frame", "reversed", "reversed", "dup"])
+        # (a column is never requested twice: dask cannot concatenate partitions with duplicate column labels when a
+        # categorical or an overlap is involved - AttributeError in _union_categoricals_wrapper / "cannot reindex on an axis
+        # with duplicate labels" - which is not a matter of the metadata)
+        order = _pick(r, ["asis", "asis", "frame", "reversed"])
         if order == "frame":
             sel = [n for n in names if n in sel]
         elif order == "reversed":
             sel = [n for n in reversed(names) if n in sel]
-        elif order == "dup" and op == "getcols":
-            sel = sel + [sel[0]]
         return {"op": op, "cols": sel}
     if op == "arith1":
         return {"op": op, "col": c1[0], "a": _arith_for(c1[1])}
@@ -650,8 +660,7 @@ def make_tail(r, op, cols, ser=None):
 def _dyn_class(dtype):
     import numpy as np
 
-    if dtype == np.dtype(bool):
-        return "bool"
+    # (a bool column is "other": after an outer merge it holds NaN and is object, whatever the meta says)
     if isinstance(dtype, np.dtype) and dtype.kind in "iuf":
         return "num"
     return "other"
@@ -679,8 +688,8 @@ def resolve_tail(t, R):
     if op.startswith("s-"):
         op = "getcol"
     cols = [[c, _dyn_class(dt), "col"] for c, dt in zip(list(R.columns), list(R.dtypes))]
-    if not cols:
-        return {"op": "self"}
+    if not cols or any(isinstance(c[0], tuple) for c in cols) or len({c[0] for c in cols}) < len(cols):
+        return {"op": "self"}       # no columns; two-level or repeated column labels are not consumed
     return make_tail(r, op, cols)
 
 
@@ -971,6 +980,13 @@ def g_indexcol(r, known):
         st2 = _ix_step(st, mv)
         if st2 is None:
             continue
+        if mv["op"] == "reset_index":
+            mv["on"] = "series" if st["kind"] == "S" else "frame"
+            if not mv["drop"]:
+                names = [c[0] for c in st["cols"]] if st["kind"] == "F" else [st["ser"][0]]
+                mv["new"] = _ix_newname(st["ix"][0], names)
+                if st["kind"] == "S" and st["ser"][0] is None:
+                    mv["unnamed_series"] = True
         st = st2
         moves.append(mv)
     if st["kind"] == "F":
@@ -1052,21 +1068,63 @@ TAIL_FAMILY = {"getcol": "getcol", "arith1": "getcol", "reduce": "getcol", "getc
                "s-label": "label"}
 
 
+_FILTER_FAMILIES = ("filter", "filter-index", "series-filter", "series-filter-index")
+_INDEX_FAMILIES = ("index", "filter-index", "series-index", "series-filter-index")
+
+
+def indexcol_features(desc, tail=None):
+    """the structural features of an indexcol program that decide which optimizer rules meet: ``series.reset_index`` /
+    ``frame.reset_index`` (``(drop)`` when the index is dropped), ``level_0`` (the new column had to be called level_0),
+    ``unnamed-series`` (the value column is called 0), ``set_index``, ``index-read`` (index.to_series / to_frame / .index),
+    ``relabel`` (add_prefix / add_suffix), ``to_frame``, ``filter`` / ``filters>=2`` (moves and consumer together)"""
+    t = tail or desc["tail"]
+    fam = TAIL_FAMILY[t["op"]]
+    feats = []
+
+    def add(f):
+        if f not in feats:
+            feats.append(f)
+
+    nfilter = 0
+    for m in desc["moves"]:
+        op = m["op"]
+        if op == "reset_index":
+            add("%s.reset_index%s" % (m.get("on", "frame"), "(drop)" if m["drop"] else ""))
+            if m.get("new") == "level_0":
+                add("level_0")
+            if m.get("unnamed_series"):
+                add("unnamed-series")
+        elif op == "set_index":
+            add("set_index")
+        elif op in ("index_to_series", "index_to_frame"):
+            add("index-read")
+        elif op in ("add_prefix", "add_suffix"):
+            add("relabel")
+        elif op == "to_frame":
+            add("to_frame")
+        elif op == "filter":
+            nfilter += 1
+            if m.get("col") is None:
+                add("index-read")
+    if fam in _INDEX_FAMILIES:
+        add("index-read")
+    if fam in _FILTER_FAMILIES:
+        nfilter += 1
+    if nfilter:
+        feats.append("filter" if nfilter == 1 else "filters>=2")
+    return feats or ["plain"]
+
+
 def consumer_head(desc, tail=None):
     """``<class>:<operations>><consumer family>``: the head of the labels of what only the program WITH its consumer shows.
-    indexcol: start kind, the distinct moves in order, the consumer family, whether it reads a column made from the
-    index, and how the index is named; pushdown: the operation; select-after: the inner class and form."""
+    indexcol: the structural features (see indexcol_features), the consumer family, whether it reads a column made from
+    the index, and how the index is named; pushdown: the operation; select-after: the inner class and form."""
     t = tail or desc["tail"]
     fam = TAIL_FAMILY[t["op"]]
     k = desc["class"]
     if k == "indexcol":
-        ops = []
-        for m in desc["moves"]:
-            if m["op"] not in ops:
-                ops.append(m["op"])
         mark = "(index-column)" if "(index-column)" in desc["form"] else ""
-        return "indexcol:%s:%s>%s%s:%s" % ("series" if "col" in desc["start"] else "frame", "+".join(ops), fam, mark,
-                                           desc["form"].rsplit(":", 1)[1])
+        return "indexcol:%s>%s%s:%s" % ("+".join(indexcol_features(desc, t)), fam, mark, desc["form"].rsplit(":", 1)[1])
     if k == "pushdown":
         return "pushdown:%s>%s" % (desc["op"], fam)
     return "select-after:%s:%s>%s" % (desc["inner"]["class"], desc["inner"]["form"], fam)
@@ -1079,7 +1137,7 @@ PUSHDOWN_OPS = ("add_prefix", "add_suffix", "drop", "explode", "combine_first", 
                 "set_columns", "copy", "dropna-subset", "dropna", "abs", "round", "isna", "notnull", "replace", "neg",
                 "invert", "fillna-dict", "fillna", "ffill", "bfill", "diff", "shift", "head-elemwise", "tail-elemwise", "mulmul",
                 "map_partitions-required", "rename_axis", "to_frame", "series-rename", "index-to_frame", "index-to_series",
-                "sample", "partitions", "repartition", "clear_divisions", "cumsum", "loc-cols")
+                "sample", "partitions", "repartition", "clear_divisions", "cumsum", "loc-cols", "head-repartition")
 _ALLCOLS = ["a", "b", "c", "d", "e", "t", "k", "n", "m"]
 
 
@@ -1101,11 +1159,12 @@ def g_pushdown(r, known):
     anycols = r.sample(_ALLCOLS, r.randint(3, 6))
     if r.random() < 0.7:
         anycols = [c for c in _ALLCOLS if c in anycols]
-    if op in ("abs", "round", "neg", "diff", "invert", "head-elemwise", "tail-elemwise", "cumsum"):
+    if op in ("abs", "round", "neg", "diff", "invert", "head-elemwise", "tail-elemwise", "cumsum"):       # numeric frames
         d["cols"] = r.sample(num, 3)
     elif op in ("combine_first", "combine_first-other"):
         d["cols"] = r.sample(["a", "b", "c", "d"], r.randint(2, 3))
         d["cols2"] = r.sample(["a", "b", "c", "d", "t"], r.randint(2, 3))
+        d["need_unique"] = True
         if op == "combine_first-other":
             d["need_known"] = True
             d["unordered"] = True
@@ -1141,7 +1200,7 @@ def g_pushdown(r, known):
         d["limit"] = _pick(r, [None, 1, 2])
     elif op in ("diff", "shift"):
         d["periods"] = _pick(r, [-2, -1, 1, 2])
-    elif op in ("head-elemwise", "tail-elemwise"):
+    elif op in ("head-elemwise", "tail-elemwise", "head-repartition"):
         d["n"] = r.randint(0, 5)
         d["novalues"] = True          # head / tail look at one partition only (documented); meta checks only
     elif op == "rename_axis":
@@ -1161,7 +1220,7 @@ def g_pushdown(r, known):
     elif op == "loc-cols":
         d["sel"] = r.sample(cols, r.randint(1, len(cols) - 1))
     d["tail"] = _dyn_tail(r)
-    if op in ("head-elemwise", "tail-elemwise", "sample", "partitions") and d["tail"]["op"] in ("reduce", "count"):
+    if op in ("head-elemwise", "tail-elemwise", "head-repartition", "sample", "partitions") and d["tail"]["op"] in ("reduce", "count"):
         d["tail"]["op"] = "getcols"
     d["inner_form"] = op
     d["form"] = "%s>%s" % (op, d["tail"]["op"])
@@ -1223,6 +1282,8 @@ def _a_pushdown(d, df, is_dask, other, upto=None):
         R = (x + 1).head(d["n"], compute=False) if is_dask else (x + 1).head(d["n"])
     elif op == "tail-elemwise":
         R = (x * 2).tail(d["n"], compute=False) if is_dask else (x * 2).tail(d["n"])
+    elif op == "head-repartition":
+        R = x.head(d["n"], compute=False).repartition(npartitions=1) if is_dask else x.head(d["n"])
     elif op == "mulmul":
         R = 2 * (3 * df[cols[0]])
     elif op == "map_partitions-required":
@@ -1273,6 +1334,12 @@ def g_select_after(r, known):
             continue
         break
     w = dict(_TAIL_W_F)
+    if k == "shuffle" and inner["op"] in ("sort_values", "set_index"):
+        # the order of rows with EQUAL sort keys is not specified, and a consumer that reads the sorted frame twice gets
+        # two differently projected sorts that may order the ties differently (seen: sorted[sorted.a > 1].index pairs the
+        # index of one sort with the mask of the other): only consumers that read the sorted frame once
+        for fam in ("arith2", "filter", "filter-getcol", "filter-getcols", "sfilter", "assign", "assign-getcols", "filter-index"):
+            w[fam] = 0
     if k == "reduction":
         tail = {"op": "s-label", "dyn": r.randrange(2 ** 31), "label": _pick(r, NUMCOLS)} if inner["form"].endswith(":frame") and \
             inner["target"] == "num" and r.random() < 0.6 else _dyn_tail(r, _TAIL_W_F)
